@@ -199,14 +199,15 @@ end ArchSim.Pipe
 namespace ArchSim.Pipe
 open ArchSim ArchSim.Rv
 
-/-- Fault agreement over runs (from an initial state with no predicted fault in flight). -/
-theorem fault_agrees_run (p0 : PSt) (hI : PInv p0) (hz : p0.hazard = true) (h0 : absF p0 = none)
-    (n : Nat) (hr : runOK n p0) (ft : PFault) (hft : (step (pipeRun n p0)).fault = some ft) :
+/-- Fault agreement over runs, general form (decode free of read-after-write hazards along the run). -/
+theorem fault_agrees_run_raw (p0 : PSt) (hI : PInv p0) (h0 : absF p0 = none)
+    (n : Nat) (hr : runOK n p0) (hraw : ∀ m, m < n → RawFree (pipeRun m p0))
+    (ft : PFault) (hft : (step (pipeRun n p0)).fault = some ft) :
     ∃ k, k ≤ n ∧ seqFault (seqRun k (abs p0)) = some (ft.addr, ft.fault) ∧
       (seqRun k (abs p0)).pc = ft.addr ∧
       (step (pipeRun n p0)).p.st.regs = (seqRun k (abs p0)).regs ∧
       (step (pipeRun n p0)).p.st.output = (seqRun k (abs p0)).output := by
-  obtain ⟨k, hk, hsim, hflt, _⟩ := refine_run p0 hI hz n hr
+  obtain ⟨k, hk, hsim, hflt, _⟩ := refine_run_raw p0 hI n hr hraw
   obtain ⟨f1, f2, f3, f4⟩ := fault_local (pipeRun n p0) (PInv_run p0 hI n hr) ft hft
   refine ⟨k, hk, ?_, ?_, ?_, ?_⟩
   · rcases hflt h0 with h | h
@@ -215,6 +216,15 @@ theorem fault_agrees_run (p0 : PSt) (hI : PInv p0) (hz : p0.hazard = true) (h0 :
   · rw [← hsim.2, f2]
   · rw [f3, hsim.1.regs]
   · rw [f4, hsim.1.output]
+
+/-- Fault agreement over runs (from an initial state with no predicted fault in flight). -/
+theorem fault_agrees_run (p0 : PSt) (hI : PInv p0) (hz : p0.hazard = true) (h0 : absF p0 = none)
+    (n : Nat) (hr : runOK n p0) (ft : PFault) (hft : (step (pipeRun n p0)).fault = some ft) :
+    ∃ k, k ≤ n ∧ seqFault (seqRun k (abs p0)) = some (ft.addr, ft.fault) ∧
+      (seqRun k (abs p0)).pc = ft.addr ∧
+      (step (pipeRun n p0)).p.st.regs = (seqRun k (abs p0)).regs ∧
+      (step (pipeRun n p0)).p.st.output = (seqRun k (abs p0)).output :=
+  fault_agrees_run_raw p0 hI h0 n hr (rawFree_run_of_hazard p0 hI hz n hr) ft hft
 
 /-! ### A finished pipeline: the abstraction is the physical state -/
 
